@@ -25,7 +25,10 @@ Pointwise problems (``formulation_cases()``)
      "perturbed_first": bool, "jac_first": bool,
      "via": "class" | "scenario",
      "missing": int | None,               # coupling (index modulo) removed from the space to see IDF's rejection
-     "equilibrium": bool}                 # IDF start_at_equilibrium
+     "equilibrium": bool,                 # IDF start_at_equilibrium
+     "x_default": {x name: [floats]},     # default values of the design inputs in the disciplines (differ from "x")
+     "idf_n_processes": 1 | 2,            # IDF n_processes (threads)
+     "declare_linear": bool}              # linear systems: the disciplines declare io.set_linear_relationships()
 
 Optimisation problems (``convex_problems()``) add to a LINEAR system one more discipline ``DOBJ`` with
 
@@ -261,7 +264,11 @@ def formulation_cases(draw):
         "perturbed_first": draw(st.booleans()), "jac_first": draw(st.booleans()),
         "via": draw(st.sampled_from(["class", "class", "scenario"])),
         "missing": draw(st.one_of(st.none(), st.none(), st.integers(0, 7))),
-        "equilibrium": draw(st.integers(0, 3)) == 0,
+        "equilibrium": draw(st.integers(0, 2)) == 0,
+        # defaults of the disciplines for the design inputs: NOT the design point (shifted by a non-zero amount)
+        "x_default": {n: [v + draw(st.sampled_from([-1.5, -0.5, 0.5, 1.0])) for v in vals] for n, vals in x.items()},
+        "idf_n_processes": draw(st.sampled_from([1, 2])),
+        "declare_linear": draw(st.booleans()),
     }
 
 
